@@ -40,10 +40,17 @@ def gen_pairs(seed, tier):
         out.add((a, b))
     return sorted(out, key=str)
 
-ARGK = {'int': ('int', 1, 1), 'size_t': ('size_t', 1, 1), 'double': ('double', 1, 1), 'NotConv': ('vh::NotConv', 0, 0), 'ThrowConv': ('vh::ThrowConv', 1, 0), 'uchar': ('unsigned char', 1, 1)}
+# name: (C++ type, convertible, nothrow-constructible) for by-value index packs; ARGK_C for the `const T&` forms (array / span constructors)
+ARGK = {'int': ('int', 1, 1), 'size_t': ('size_t', 1, 1), 'double': ('double', 1, 1), 'NotConv': ('vh::NotConv', 0, 0), 'ThrowConv': ('vh::ThrowConv', 1, 0), 'uchar': ('unsigned char', 1, 1),
+        'NCConv': ('vh::NCConv', 1, 1), 'CThrow': ('vh::CThrow', 1, 0)}
+ARGK_C = dict(ARGK); ARGK_C['NCConv'] = ('vh::NCConv', 0, 0); ARGK_C['CThrow'] = ('vh::CThrow', 1, 1)
 
 PRELUDE = '''#include "probe.hpp"
-namespace vh { struct NotConv {}; struct ThrowConv { operator long() const noexcept(false) { return 1; } }; }
+namespace vh { struct NotConv {}; struct ThrowConv { operator long() const noexcept(false) { return 1; } };
+  struct NCConv { operator long() noexcept { return 1; } };                                           // converts only as a non-const object
+  struct CThrow { operator long() const noexcept { return 1; } operator long() noexcept(false) { return 1; } };   // the non-const conversion may throw
+  template <class V, class A, class = void> struct canBr : std::false_type {};
+  template <class V, class A> struct canBr<V, A, std::void_t<decltype(std::declval<const V&>()[std::declval<A>()])>> : std::true_type {}; }
 using namespace vh;
 '''
 
@@ -69,6 +76,7 @@ def sources(pairs, model, mds_pairs, args, ntu=16):
         elif what == 'arr':
             ex = 'std::is_constructible_v<%s, const std::array<%s, %d>&>' % (E, T, n)
             tus[k % ntu].append('  out[%d] = std::string("ok ") + num(%s) + " expl=" + num(%s && !std::is_convertible_v<const std::array<%s, %d>&, %s>);' % (k, ex, ex, T, n, E)); k += 1; continue
+        elif what == 'br1': ex = 'vh::canBr<md::mdspan<int, %s, md::layout_%s>, %s>::value' % (E, lay, T)
         else: ex = 'std::is_constructible_v<md::mdspan<int, %s, md::layout_%s>, int*%s>' % (E, lay, (', ' + pack) if n else '')
         tus[k % ntu].append('  out[%d] = std::string("ok ") + num(%s);' % (k, ex)); k += 1
     srcs = []
@@ -163,9 +171,13 @@ def check(prop, tier, seed, replay=None):
                             if what == 'call' and rd != rank: continue
                             if what == 'arr' and ak in ('NotConv',) and n == 0: continue
                             args.append((what, rank, rd, n, ak, lay))
-    if not thorough: args = rnd.sample(args, 700)
+    for rd in (0, 1):
+        for ak in ARGK:
+            for lay in ('left', 'stride'): args.append(('br1', 1, rd, 1, ak, lay))
+    if not thorough: args = rnd.sample([a for a in args if a[0] != 'br1'], 700) + [a for a in args if a[0] == 'br1']
     # an empty pack is vacuously convertible / nothrow-constructible
-    arg_lines = ['c16 args what=%s rank=%d rd=%d n=%d conv=%d nothrow=%d lay=%s' % (a[0], a[1], a[2], a[3], ARGK[a[4]][1] if (a[3] or a[0] == 'arr') else 1, ARGK[a[4]][2] if (a[3] or a[0] == 'arr') else 1, a[5]) for a in args]
+    KT = lambda a: (ARGK_C if a[0] == 'arr' else ARGK)[a[4]]
+    arg_lines = ['c16 args what=%s rank=%d rd=%d n=%d conv=%d nothrow=%d lay=%s' % ('call' if a[0] == 'br1' else a[0], a[1], a[2], a[3], KT(a)[1] if (a[3] or a[0] == 'arr') else 1, KT(a)[2] if (a[3] or a[0] == 'arr') else 1, a[5]) for a in args]
     arg_model = C.driver(arg_lines)
     rep.notes['probes'] = dict(mapping_pairs=len(pairs), mdspan_pairs=len(mds), argument_packs=len(args))
     rep.notes['mandated_hard_error_pairs_skipped_for_instantiation'] = sum(1 for m in model if m.get('hard') == '1')
@@ -217,9 +229,9 @@ def check(prop, tier, seed, replay=None):
             if xi.get('ctor') != m['ctor'] or xi.get('conv') != mconv: rep.broke(dict(correspondence='C16 mdspan traits vs Impl.mds*', impl=out[k - 1], model=str(m), **pub))
         for a, ml, xm in zip(args, arg_lines, arg_model):
             xi = out[k]; k += 1; rep.cov['evaluations'] += 1
-            what, rank, rd, n, ak, lay = a; conv, noth = (ARGK[ak][1], ARGK[ak][2]) if (n or what == 'arr') else (1, 1)
+            what, rank, rd, n, ak, lay = a; conv, noth = ((ARGK_C if what == 'arr' else ARGK)[ak][1], (ARGK_C if what == 'arr' else ARGK)[ak][2]) if (n or what == 'arr') else (1, 1)
             if what == 'ext': want = 'ok %d' % (1 if (n == 0 or (conv and noth and n in (rank, rd))) else 0)
-            elif what == 'call': want = 'ok %d' % (1 if (conv and noth and n == rank) else 0)
+            elif what in ('call', 'br1'): want = 'ok %d' % (1 if (conv and noth and n == rank) else 0)
             elif what == 'arr':
                 ok = conv and noth and n in (rank, rd); want = 'ok %d expl=%d' % (1 if ok else 0, 1 if (ok and n != rd and not cxx17) else 0)
             else: want = 'ok %d' % (1 if (conv and noth and n in (rank, rd) and lay != 'stride') else 0)
